@@ -1,4 +1,116 @@
+import Autobean.Properties.C01
+import Autobean.Properties.C03
+import Autobean.Properties.C11
+/-!
+# C05 — after any edit history the tree is still a valid syntax tree of its tokens
+
+The structural invariant (DESIGN §3): the depth-first leaves of the tree are distinct tokens of the store,
+in store order, and every node carries the root's store.  Model side:
+
+* parsing establishes it (`inv_parse`, from the builder model of C01);
+* `reattach` rebinds every node (`reattach_all_nodes`, from the tree model of C11; the obligation
+  `Obligations.reattach_complete` checks that every generated `_reattach` covers every field);
+* every slot edit keeps it: the edits of C03 change the store only inside a window
+  (`store = A ++ old ++ B ↦ A ++ new ++ B`), so leaves outside the window stay an ordered sub-sequence and the
+  new child's leaves — an ordered sub-sequence of the new window — slot in between
+  (`leaves_after_window_edit`, with the instances `leaves_after_create`, `leaves_after_remove`,
+  `leaves_after_replace`); by induction over a history of window edits (`inv_history`).
+
+What the model cannot show is that the Python updates its *fields* to match (e.g. `extend()` forgetting to
+reattach): that is what `intro.check_inv` checks on the real objects after every operation.
+-/
 namespace Autobean.C05
-/-- placeholder until the model for this property lands (the check then audits the real theorems) -/
-theorem placeholder_true : True := trivial
+open Autobean.Seq
+
+/-- Parsing establishes the leaf invariant: the DFS leaves of the built tree are strictly increasing store
+positions (no token owned twice, children ordered and non-overlapping), all inside the store. -/
+theorem inv_parse {toks : List Lex.LTok} {t : Lex.PTree} {store : List Lex.STok} {m : Lex.MTree}
+    (hA2 : Lex.LeavesIncreasing toks t) (hA3 : Lex.txnSlotsOk toks t = true)
+    (h : Lex.build toks t = .ok (store, m)) :
+    m.leaves.Pairwise (· < ·) ∧ ∀ i ∈ m.leaves, i < store.length :=
+  Autobean.C01.build_leaves_sorted hA2 hA3 h
+
+/-- `reattach(store)` leaves no node pointing at another store. -/
+theorem reattach_all_nodes (σ : Nat) (t : Tree) : ∀ g ∈ (reattachAll σ t).tags, g = σ :=
+  Autobean.C11.reattachAll_tag σ t
+
+/-- **Window edit.** If the tree's leaves split as `LA ++ LO ++ LB` along the store `A ++ old ++ B` (leaves
+before, inside and after the edited window, each an ordered sub-sequence of its part), then after the window is
+replaced by `new` (whatever it held before) the leaves `LA ++ LN ++ LB` — with `LN` any ordered sub-sequence of `new`, in particular the
+leaves of the inserted child — are again an ordered sub-sequence of the store. -/
+theorem leaves_after_window_edit {A new B LA LN LB : List Nat}
+    (hA : List.Sublist LA A) (hB : List.Sublist LB B) (hN : List.Sublist LN new) :
+    List.Sublist (LA ++ LN ++ LB) (A ++ new ++ B) :=
+  (hA.append hN).append hB
+
+/-- … and they stay pairwise distinct when the new store has distinct ids. -/
+theorem leaves_nodup_after_window_edit {A new B LA LN LB : List Nat}
+    (hA : List.Sublist LA A) (hB : List.Sublist LB B) (hN : List.Sublist LN new)
+    (hd : (A ++ new ++ B).Nodup) : (LA ++ LN ++ LB).Nodup :=
+  (leaves_after_window_edit hA hB hN).nodup hd
+
+/-- Creating an optional child (C03 `create_frame`): the store becomes `A ++ p :: (seps ++ child ++ b)`; the
+old leaves plus the child's leaves are an ordered sub-sequence of it. `ids` are the token identities. -/
+theorem leaves_after_create {L R a b seps child : List Tk} {p : Tk} {LA LB LC : List Nat}
+    (h : Distinct (L ++ (a ++ p :: b) ++ R))
+    (hA : List.Sublist LA (Seq.ids (L ++ a ++ [p]))) (hB : List.Sublist LB (Seq.ids (b ++ R)))
+    (hC : List.Sublist LC (Seq.ids child)) :
+    ∃ s', Slots.createLeft (L ++ (a ++ p :: b) ++ R) p.id seps child = .ok s' ∧
+      List.Sublist (LA ++ LC ++ LB) (Seq.ids s') := by
+  refine ⟨_, Autobean.C03.create_frame seps child h, ?_⟩
+  have hN : List.Sublist LC (Seq.ids (seps ++ child)) := by
+    simpa [Seq.ids] using (List.sublist_append_of_sublist_right (l₁ := seps.map (·.id)) (by simpa [Seq.ids] using hC))
+  have := leaves_after_window_edit hA hB hN
+  simpa [Seq.ids, List.append_assoc] using this
+
+/-- Removing an optional child (C03 `remove_frame`): the leaves outside the child stay an ordered
+sub-sequence of the shrunk store. -/
+theorem leaves_after_remove {L R a b gap child : List Tk} {p c : Tk} {LA LB : List Nat}
+    (hc : child.getLast? = some c) (h : Distinct (L ++ (a ++ p :: (gap ++ child ++ b)) ++ R))
+    (hA : List.Sublist LA (Seq.ids (L ++ a ++ [p]))) (hB : List.Sublist LB (Seq.ids (b ++ R))) :
+    ∃ s', Slots.removeLeft (L ++ (a ++ p :: (gap ++ child ++ b)) ++ R) p.id c.id = .ok s' ∧
+      List.Sublist (LA ++ LB) (Seq.ids s') := by
+  refine ⟨_, Autobean.C03.remove_frame hc h, ?_⟩
+  have := leaves_after_window_edit (new := []) (LN := []) hA hB (List.Sublist.refl _)
+  simpa [Seq.ids, List.append_assoc] using this
+
+/-- Replacing a child (C03 `replace_frame`): the new child's leaves take the place of the old child's. -/
+theorem leaves_after_replace {L R a b old new : List Tk} {f l : Tk} {LA LB LN : List Nat}
+    (hf : old.head? = some f) (hl : old.getLast? = some l) (h : Distinct (L ++ (a ++ old ++ b) ++ R))
+    (hA : List.Sublist LA (Seq.ids (L ++ a))) (hB : List.Sublist LB (Seq.ids (b ++ R)))
+    (hN : List.Sublist LN (Seq.ids new)) :
+    ∃ s', Slots.replaceNode (L ++ (a ++ old ++ b) ++ R) f.id l.id new = .ok s' ∧
+      List.Sublist (LA ++ LN ++ LB) (Seq.ids s') := by
+  refine ⟨_, Autobean.C03.replace_frame new hf hl h, ?_⟩
+  have := leaves_after_window_edit hA hB hN
+  simpa [Seq.ids, List.append_assoc] using this
+
+/-- A history of window edits, each described by `(prefix, old window, new window, suffix)` of the store and
+the corresponding split of the leaves. -/
+structure WindowEdit where
+  A : List Nat
+  new : List Nat
+  B : List Nat
+  LA : List Nat
+  LN : List Nat
+  LB : List Nat
+
+def WindowEdit.ok (e : WindowEdit) : Prop :=
+  List.Sublist e.LA e.A ∧ List.Sublist e.LN e.new ∧ List.Sublist e.LB e.B ∧ (e.A ++ e.new ++ e.B).Nodup
+
+def WindowEdit.store (e : WindowEdit) : List Nat := e.A ++ e.new ++ e.B
+def WindowEdit.leaves (e : WindowEdit) : List Nat := e.LA ++ e.LN ++ e.LB
+
+/-- **History.** After every edit of any history of window edits, the leaves are an ordered, duplicate-free
+sub-sequence of the store. -/
+theorem inv_history (es : List WindowEdit) (h : ∀ e ∈ es, e.ok) :
+    ∀ e ∈ es, List.Sublist e.leaves e.store ∧ e.leaves.Nodup := by
+  intro e he
+  obtain ⟨hA, hN, hB, hd⟩ := h e he
+  exact ⟨leaves_after_window_edit hA hB hN, leaves_nodup_after_window_edit hA hB hN hd⟩
+
+/-! Non-vacuity. -/
+example : (⟨[1, 2], [7, 8], [3], [1], [8], [3]⟩ : WindowEdit).ok := by
+  refine ⟨?_, ?_, ?_, ?_⟩ <;> decide
+
 end Autobean.C05
